@@ -121,6 +121,14 @@ CHECKS = {
             'from its own request, with no deadlock; all schedules of small thread/transaction shapes are enumerated depth-first.',
             'Pre-emption only at transport operations and lock acquisitions (as the property states).',
             'DESIGN.md 4 C15'),
+    'C16': ('hypothesis operation histories on a Twisted client protocol over a StringTransport (issue / reply in any order / coalesce / split / unsolicited / duplicate / connection loss); oracle = tid -> deferred model; id-space wrap history',
+            'Generated histories drive the real ModbusClientProtocol (TCP dictionary manager and serial FIFO manager) in-process: '
+            'each deferred must fire exactly once with the reply carrying its transaction id and scripted values whatever the '
+            'arrival order, coalescing or splitting; unsolicited and duplicate replies must fire nothing; connection loss must '
+            'fail every pending deferred and later requests; ids on the wire must be distinct among outstanding requests, also '
+            'across a 70000-request wrap history with one long-outstanding request.',
+            'StringTransport stands for the reactor transport.',
+            'DESIGN.md 4 C16'),
     'C17': ('hypothesis multi-connection scripts (interleaved chunk schedules) played to sync / asyncio / Twisted front-ends; differential oracle + reference model in completion order',
             'Generated scripts of 1..3 connections (or datagram peers) with chunked request streams and a generated merge '
             'order are played identically to the sync threaded (handler threads in lock-step), asyncio and Twisted front-ends; '
